@@ -241,7 +241,8 @@ def judge_cli(data, ctx, case, r, workdir, kwdir=None, kwfiles=None):
         args.append(r.choice(["--replace", "-r"]))
     if not use_stdin:
         args.append(path)
-    rc, out, err = run_cli(args, stdin=data if use_stdin else None)
+    # the CLI is its own process: its hash seed is not the library caller's
+    rc, out, err = run_cli(args, stdin=data if use_stdin else None, hashseed=str(case.get("hashseed", 0)))
     ctx.count("cli_runs")
     ctx.count("cli_" + mode)
     if use_stdin:
@@ -332,7 +333,11 @@ def run_shard(spec, ctx):
             else:
                 data = next(r.choice(gens))[1]
             mode = r.choice(["json", "json", "default", "default", "replace"])
-            case = {"kind": "cli", "data": runner.hx(data), "mode": mode, "stdin": r.random() < 0.35}
+            if r.random() < 0.15:
+                # bundled keywords listed in several letter cases
+                data = data + b" " + r.choice([b"strlen StrLen", b"[ENTER] [Enter]", b"GetModuleFileName getmodulefilename", b"STRLEN [enter]"])
+            case = {"kind": "cli", "data": runner.hx(data), "mode": mode, "stdin": r.random() < 0.35,
+                    "hashseed": r.choice([0, r.randrange(1, 2 ** 32 - 1), r.randrange(1, 2 ** 32 - 1)])}
             kwdir = None
             if r.random() < 0.12:
                 kwdir = os.path.join(workdir, f"kw{i}")
